@@ -6,6 +6,13 @@ FF = 'pedal/core/final_feedback.py'
 RP = 'pedal/core/report.py'
 
 CASES = [
+    dict(name='revert-fix-location-eq', kind='mutant', rule='R7', key='dataclass-eq:pedal.core.location.Location',
+         edits=[dict(file='pedal/core/location.py', old="    def __eq__(self, other):\n", new="    def _same_place(self, other):\n")]),
+    dict(name='twin-location-declares-its-fields', kind='twin',
+         edits=[dict(file='pedal/core/location.py', old="    def __eq__(self, other):\n", new="    line: int = None\n    col: int = None\n    end_line: int = None\n    end_col: int = None\n    filename: str = None\n\n    def _same_place(self, other):\n")]),
+    dict(name='twin-location-eq-off', kind='twin',
+         edits=[dict(file='pedal/core/location.py', old="@dataclass\nclass Location:", new="@dataclass(eq=False)\nclass Location:"),
+                dict(file='pedal/core/location.py', old="    def __eq__(self, other):\n", new="    def _same_place(self, other):\n")]),
     dict(name='swap-runtime-algorithmic', kind='mutant', rule='R1', key='order',
          edits=[dict(file=FB, old="    Feedback.CATEGORIES.ALGORITHMIC,\n    # Dynamic\n    Feedback.CATEGORIES.RUNTIME,",
                      new="    Feedback.CATEGORIES.RUNTIME,\n    # Dynamic\n    Feedback.CATEGORIES.ALGORITHMIC,")]),
